@@ -530,7 +530,9 @@ where
         let mut label: FxHashMap<usize, usize> = FxHashMap::default();
         for &vertex in self.vertices.keys() {
             ancestor.insert(vertex, None);
-            label.insert(vertex, dfs_number[&vertex]);
+            // vertices unreachable from the root have no DFS number: give them the neutral
+            // label so that they are excluded instead of causing a panic
+            label.insert(vertex, dfs_number.get(&vertex).cloned().unwrap_or(usize::MAX));
         }
 
         // Compute semidominators in reverse preorder (without root)
